@@ -56,7 +56,7 @@ fn ok(r: Result<(), PasetoError>) -> bool {
 
 #[kani::proof]
 #[kani::unwind(6)]
-fn val_and_then_exact() {
+pub fn val_and_then_exact() {
     let c = C { a: kani::any(), inner: Inner { b: kani::any() } };
     let (x, y, z) = (any_bit(), any_bit(), any_bit());
     let want = acc(&x, &c) && acc(&y, &c) && acc(&z, &c);
@@ -75,7 +75,7 @@ fn val_and_then_exact() {
 
 #[kani::proof]
 #[kani::unwind(6)]
-fn val_nested_depth3() {
+pub fn val_nested_depth3() {
     let c = C { a: kani::any(), inner: Inner { b: kani::any() } };
     let (w, x, y, z) = (any_bit(), any_bit(), any_bit(), any_bit());
     let want = acc(&w, &c) && acc(&x, &c) && acc(&y, &c) && acc(&z, &c);
@@ -110,23 +110,23 @@ fn slice_exact<const N: usize>() {
 }
 #[kani::proof]
 #[kani::unwind(6)]
-fn val_slice_vec_n0() {
+pub fn val_slice_vec_n0() {
     slice_exact::<0>();
 }
 #[kani::proof]
 #[kani::unwind(6)]
-fn val_slice_vec_n1() {
+pub fn val_slice_vec_n1() {
     slice_exact::<1>();
 }
 #[kani::proof]
 #[kani::unwind(6)]
-fn val_slice_vec_n3() {
+pub fn val_slice_vec_n3() {
     slice_exact::<3>();
 }
 
 #[kani::proof]
 #[kani::unwind(6)]
-fn val_pointers_transparent() {
+pub fn val_pointers_transparent() {
     let c = C { a: kani::any(), inner: Inner { b: kani::any() } };
     let mask: u8 = kani::any();
     let want_v: u8 = kani::any();
@@ -146,7 +146,7 @@ fn val_pointers_transparent() {
 
 #[kani::proof]
 #[kani::unwind(6)]
-fn val_map_and_novalidation() {
+pub fn val_map_and_novalidation() {
     let c = C { a: kani::any(), inner: Inner { b: kani::any() } };
     let k: u8 = kani::any();
     let v = InnerIs(k).map(|c: &C| &c.inner);
